@@ -31,8 +31,7 @@ ASSUMPTIONS = ["libm (sqrt, exp, ln, sin, cos, sinh, cosh, atan2, powf) returns 
                "the theorems are about real-number formulae; rounding error of the f64 evaluation is certified pointwise, not proved",
                "exactly on a branch cut the implementation follows the sign of its computed zero; the property does not constrain it"]
 UNPROVED = ["accuracy of the f64 evaluation between the certified points (tie + search only)",
-            "agreement with the power-series definitions is through the standard library's exp/sin/cos (defined by their series) "
-            "and the exponential forms proved in Props/C14.v"]
+            "the series half is proved for exp, sin, cos, sinh, cosh (exp_series, trig_series, hyperbolic_series, power_series_forms, exp_series_absolute with the truncation bound |z|^(N+1)/(N+1)! exp|z|); the remaining functions are defined in the source by closed forms, for which no series statement is made (e.g. the Mercator series of ln)"]
 
 MANIFEST = dict(
     text=("%d theorems over R" % ntheorems("C14") + " (coq/Props/C14.v) about the formula-by-formula Gallina model of the 35 public Complex<f64> functions "
@@ -49,7 +48,7 @@ MANIFEST = dict(
           "seeded random points (8 000 cases quick, 49 000 thorough)."),
     note=("libm accuracy and f64 rounding are certified pointwise (tie) and searched, not proved; points exactly on a cut are excluded "
           "from value comparison (the code follows the sign of its computed zero, the R-model has no signed zero); agreement with "
-          "the power series is through the standard library's exp/sin/cos, which are defined by their series."),
+          "the defining power series is proved for exp, sin, cos, sinh, cosh over all of C."),
     technique="Coq proof over R (Reals, field structure on R x R) + certified real evaluation (Interval) of the model against the Rust executor + mpmath/identity search",
     design="4.2, 7 (C14), Appendix E")
 
